@@ -1,1 +1,2 @@
 import MatidGen.Radii
+import MatidGen.AllGroups
